@@ -1,6 +1,380 @@
 import OnetVerif.Model.C20
-/-! Property C20 — property theorems, negation witnesses, `_partial` variants and non-vacuity
-examples only (helper lemmas that need Mathlib go to OnetVerif/Proofs/). -/
+import OnetVerif.Proofs.C20Spec
+import OnetVerif.Proofs.C20Lemmas
+/-! Property C20 — address parsing is total and self-consistent.
+
+The property theorems, the negation witness for the code before the repair and non-vacuity
+examples.  The independent grammar `Spec` (with `Parse`, `HostPort`, `PortOk`, `HostName`) is in
+`Proofs/C20Spec.lean`, helper lemmas in `Proofs/C20Lemmas.lean`.  All statements quantify over
+arbitrary byte strings of any length. -/
 namespace C20
+
+/-! ### valid ⇔ the independent parse -/
+
+/-- **an address is valid exactly when it is in the independent grammar**: a known connection
+type, the separator (once), and a host:port whose host is empty, an IP address or a well-formed
+host name and whose port is in range. -/
+theorem c20_valid_iff_spec (a : Str) : valid a = true ↔ Spec a := by
+  rw [valid_iff_parts]
+  constructor
+  · rintro ⟨t, na, h, p, v, hs, hct, hshp, hat, hr, hh⟩
+    obtain ⟨hc1, hc2⟩ := split_two.mp hs
+    refine ⟨t, na, h, p, ⟨cut_some hc1, connTypeOf_known.mp hct, cut_none_not_infix hc2, shp_iff.mp hshp⟩,
+      atoi_port_iff.mp ⟨v, hat, hr⟩, ?_⟩
+    rcases hh with hh | hh | hh
+    · exact Or.inl hh
+    · exact Or.inr (Or.inl hh)
+    · exact Or.inr (Or.inr (validHostname_iff.mp hh))
+  · rintro ⟨t, na, h, p, ⟨ha, ht, hns, hhp⟩, hport, hh⟩
+    obtain ⟨v, hat, hr⟩ := atoi_port_iff.mpr hport
+    refine ⟨t, na, h, p, v, ?_, connTypeOf_known.mpr ht, shp_iff.mpr hhp, hat, hr, ?_⟩
+    · rw [ha]
+      exact split_two.mpr ⟨cut_append (cut_known ht), cut_none_of_not_infix hns⟩
+    · rcases hh with hh | hh | hh
+      · exact Or.inl hh
+      · exact Or.inr (Or.inl hh)
+      · exact Or.inr (Or.inr (validHostname_iff.mpr hh))
+
+/-- the parse of an address is unique: type, network address, host and port are functions of it -/
+theorem c20_parse_unique {a t na h p t' na' h' p' : Str}
+    (h1 : Parse a t na h p) (h2 : Parse a t' na' h' p') : t = t' ∧ na = na' ∧ h = h' ∧ p = p' := by
+  obtain ⟨ha, ht, _, hhp⟩ := h1
+  obtain ⟨ha', ht', _, hhp'⟩ := h2
+  have c1 : cut a = some (t, na) := by rw [ha]; exact cut_append (cut_known ht)
+  have c2 : cut a = some (t', na') := by rw [ha']; exact cut_append (cut_known ht')
+  rw [c1] at c2
+  simp only [Option.some.injEq, Prod.mk.injEq] at c2
+  obtain ⟨rfl, rfl⟩ := c2
+  have s1 := shp_iff.mpr hhp
+  have s2 := shp_iff.mpr hhp'
+  rw [s1] at s2
+  simp only [Option.some.injEq, Prod.mk.injEq] at s2
+  exact ⟨rfl, rfl, s2.1, s2.2⟩
+
+/-! ### accessors -/
+
+/-- **for a valid address the accessors return exactly the parts of the parse** — for *every*
+decomposition the grammar allows (there is only one, `c20_parse_unique`) — re-assembling type and
+network address gives the address back, and host and port are the split of the network address. -/
+theorem c20_accessors (a t na h p : Str) (hv : valid a = true) (hp : Parse a t na h p) :
+    connType a = some t ∧ networkAddress a = some na ∧ host a = some h ∧ port a = some p ∧
+    isHostname a = some (validHostname h && !parseIP h) ∧
+    newAddress t na = a ∧ splitHostPort na = some (h, p) := by
+  obtain ⟨ha, ht, hns, hhp⟩ := hp
+  have hs : split a = [t, na] := by
+    rw [ha]; exact split_two.mpr ⟨cut_append (cut_known ht), cut_none_of_not_infix hns⟩
+  have hshp := shp_iff.mpr hhp
+  have hna : na ≠ [] := by
+    intro e; rw [e, shp_nil] at hshp; cases hshp
+  have hNA : networkAddress a = some na := by simp [networkAddress, hv, hs]
+  refine ⟨?_, hNA, ?_, ?_, ?_, ha.symm, hshp⟩
+  · simp [connType, hv, hs, connTypeOf_of_known ht]
+  · simp [host, hNA, hna, hshp]
+  · simp [port, hNA, hna, hshp]
+  · simp [isHostname, host, hNA, hna, hshp]
+
+/-- a valid address has a parse (so `c20_accessors` is never vacuous) -/
+theorem c20_valid_has_parse (a : Str) (hv : valid a = true) : ∃ t na h p, Parse a t na h p := by
+  obtain ⟨t, na, h, p, hp, _⟩ := (c20_valid_iff_spec a).mp hv
+  exact ⟨t, na, h, p, hp⟩
+
+/-- **for an invalid address every accessor returns its documented empty value**:
+`InvalidConnType` ("wrong"), `""`, `""`, `""`, `false`. -/
+theorem c20_accessors_invalid (a : Str) (hv : valid a = false) :
+    connType a = some wrong ∧ networkAddress a = some [] ∧ host a = some [] ∧ port a = some [] ∧
+    isHostname a = some false := by
+  have hNA : networkAddress a = some [] := by simp [networkAddress, hv]
+  refine ⟨by simp [connType, hv], hNA, by simp [host, hNA], by simp [port, hNA], ?_⟩
+  simp [isHostname, host, hNA, validHostname]
+
+/-- **totality**: no accessor can hit an index panic, whatever the string. -/
+theorem c20_total (a : Str) :
+    (connType a).isSome ∧ (networkAddress a).isSome ∧ (host a).isSome ∧ (port a).isSome ∧
+    (isHostname a).isSome := by
+  cases hv : valid a with
+  | false =>
+    obtain ⟨h1, h2, h3, h4, h5⟩ := c20_accessors_invalid a hv
+    simp [h1, h2, h3, h4, h5]
+  | true =>
+    obtain ⟨t, na, h, p, hp⟩ := c20_valid_has_parse a hv
+    obtain ⟨h1, h2, h3, h4, h5, _⟩ := c20_accessors a t na h p hv hp
+    simp [h1, h2, h3, h4, h5]
+
+/-! ### listen address -/
+
+/-- **the listen address is an error or a usable host:port consistent with its inputs**: it is
+derived only from a valid server address; it splits into host and non-empty port; with no
+override it is `:port` of the server address, with a bare host override it is that host joined
+with the server's port, otherwise it is the override itself (which then has a host and a port). -/
+theorem c20_listen_consistent (a l r : Str) (h : getListenAddress a l = .ok r) :
+    valid a = true ∧ ∃ hr pr, splitHostPort r = some (hr, pr) ∧ pr ≠ [] ∧
+      ((l = [] ∧ hr = [] ∧ port a = some pr) ∨
+       (l ≠ [] ∧ 58 ∉ l ∧ r = l ++ 58 :: pr ∧ port a = some pr) ∨
+       (58 ∈ l ∧ r = l ∧ hr ≠ [])) := by
+  cases hv : valid a with
+  | false =>
+    have hNA : networkAddress a = some [] := by simp [networkAddress, hv]
+    unfold getListenAddress at h
+    simp only [hNA] at h
+    by_cases hl : l = []
+    · simp [hl, globalBind, shp_nil] at h
+    · simp [hl, shp_nil] at h
+  | true =>
+    refine ⟨rfl, ?_⟩
+    obtain ⟨t, na, ho, po, v, hs, hct, hshp, hat, hr, hh⟩ := valid_iff_parts.mp hv
+    obtain ⟨hc1, hc2⟩ := split_two.mp hs
+    have hparse : Parse a t na ho po :=
+      ⟨cut_some hc1, connTypeOf_known.mp hct, cut_none_not_infix hc2, shp_iff.mp hshp⟩
+    obtain ⟨_, hNA, _, hport, _, _, _⟩ := c20_accessors a t na ho po hv hparse
+    have hpo : po ≠ [] := atoi_some_ne_nil hat
+    have hbr := (hostPort_noSq (shp_iff.mp hshp)).2
+    unfold getListenAddress at h
+    simp only [hNA] at h
+    by_cases hl : l = []
+    · simp only [hl, if_true, globalBind, hshp, R.ok.injEq] at h
+      subst h
+      refine ⟨[], po, ?_, hpo, Or.inl ⟨hl, rfl, hport⟩⟩
+      exact shp_of_hostPort (HostPort.plain [] po (by intro c hc; cases hc) hbr)
+    · simp only [hl, if_false, hshp] at h
+      by_cases hcol : l.contains 58 = true
+      · have hcond : ¬ (l.contains 58 = false ∧ po ≠ []) := by
+          intro ⟨h1, _⟩; rw [hcol] at h1; cases h1
+        rw [if_neg hcond] at h
+        cases hsl : splitHostPort l with
+        | none => simp [hsl] at h
+        | some x =>
+          obtain ⟨hl', pl'⟩ := x
+          simp only [hsl] at h
+          by_cases hne : hl' ≠ [] ∧ pl' ≠ []
+          · rw [if_pos hne] at h
+            simp only [R.ok.injEq] at h
+            subst h
+            exact ⟨hl', pl', hsl, hne.2, Or.inr (Or.inr ⟨by simpa using hcol, rfl, hne.1⟩)⟩
+          · rw [if_neg hne] at h
+            cases h
+      · have hcol' : 58 ∉ l := contains_false.mp (by simpa using hcol)
+        have hcond : l.contains 58 = false ∧ po ≠ [] := ⟨by simpa using hcol, hpo⟩
+        rw [if_pos hcond] at h
+        cases hsl : splitHostPort (l ++ 58 :: po) with
+        | none => simp [hsl] at h
+        | some x =>
+          obtain ⟨hr', pr'⟩ := x
+          simp only [hsl, R.ok.injEq] at h
+          subst h
+          -- the port part of the result is the server's port: it follows the last colon
+          have hpr : pr' = po := by
+            obtain ⟨pre, heq, h58'⟩ := hostPort_last_colon (shp_iff.mp hsl)
+            have h58 : 58 ∉ po := fun m => (hbr 58 m).1 rfl
+            exact (last_colon_unique heq.symm h58' h58).2
+          subst hpr
+          exact ⟨hr', pr', hsl, hpo, Or.inr (Or.inl ⟨hl, hcol', rfl, hport⟩)⟩
+
+/-- the listen address never panics -/
+theorem c20_listen_total (a l : Str) : getListenAddress a l ≠ .panic := by
+  have hsome := (c20_total a).2.1
+  unfold getListenAddress
+  cases hNA : networkAddress a with
+  | none => simp [hNA] at hsome
+  | some na =>
+    simp only
+    split
+    · unfold globalBind; split <;> simp
+    · split
+      · simp
+      · split
+        · split <;> simp
+        · split
+          · simp
+          · split <;> simp
+
+/-- with no override a valid server address always yields its global-bind address `:port` -/
+theorem c20_listen_default (a t na h p : Str) (hv : valid a = true) (hp : Parse a t na h p) :
+    getListenAddress a [] = .ok (58 :: p) := by
+  obtain ⟨_, hNA, _, _, _, _, hshp⟩ := c20_accessors a t na h p hv hp
+  simp [getListenAddress, hNA, globalBind, hshp]
+
+/-- `GlobalBind`: an error, or `:port` with the port of the given host:port -/
+theorem c20_globalBind (s r : Str) (h : globalBind s = .ok r) :
+    ∃ ho po, splitHostPort s = some (ho, po) ∧ r = 58 :: po ∧ splitHostPort r = some ([], po) := by
+  unfold globalBind at h
+  cases hs : splitHostPort s with
+  | none => simp [hs] at h
+  | some x =>
+    obtain ⟨ho, po⟩ := x
+    simp only [hs, R.ok.injEq] at h
+    subst h
+    refine ⟨ho, po, rfl, rfl, ?_⟩
+    exact shp_of_hostPort (HostPort.plain [] po (by intro c hc; cases hc) (hostPort_noSq (shp_iff.mp hs)).2)
+
+/-! ### websocket host:port -/
+
+/-- **the websocket host:port is an error or has port = address port + 1 ≤ 65535 — never a
+wrapped-around port** (full strength, on the repaired code).  Without an explicit URL the result
+comes from a valid address whose port is a plain decimal numeral `m`, it is `host:m+1` (host
+`0.0.0.0` when binding globally), it splits back into exactly that host and port, and the port
+reads back as `m + 1`.  With an explicit URL the port is the URL's own 16-bit port or the
+scheme's default, the host the URL's host name. -/
+theorem c20_ws_port (a : Str) (url : Option UrlParts) (global : Bool) (r : Str)
+    (h : wsHostPort a url global = .ok r) :
+    ∃ hn n, r = joinHostPort hn (fmtNat n) ∧ n ≤ 65535 ∧ parseUint16 (fmtNat n) = some n ∧
+      (global = true → hn = [48, 46, 48, 46, 48, 46, 48]) ∧
+      match url with
+      | none =>
+        valid a = true ∧ splitHostPort r = some (hn, fmtNat n) ∧
+          ∃ p m, port a = some p ∧ parseUint16 p = some m ∧ n = m + 1 ∧
+            (global = false → host a = some hn)
+      | some u =>
+        (global = false → hn = u.hostname) ∧
+          ((u.port = [] ∧ schemeToPort u.scheme = some n) ∨ (u.port ≠ [] ∧ parseUint16 u.port = some n)) := by
+  unfold wsHostPort at h
+  cases url with
+  | some u =>
+    simp only at h
+    by_cases h1 : u.parsed = true
+    · by_cases h2 : u.abs = true
+      · simp only [h1, h2, Bool.not_true, Bool.false_eq_true, if_false] at h
+        cases hsp : schemeToPort u.scheme with
+        | none => simp [hsp] at h
+        | some pp =>
+          simp only [hsp] at h
+          have hpp : pp ≤ 65535 := by
+            unfold schemeToPort at hsp
+            split at hsp
+            · simp at hsp; omega
+            · split at hsp
+              · simp at hsp; omega
+              · cases hsp
+          by_cases hpe : u.port = []
+          · simp only [hpe, if_true, R.ok.injEq] at h
+            refine ⟨_, pp, h.symm, hpp, parseUint16_fmtNat hpp, ?_, ?_⟩
+            · intro hg; simp [hg]
+            · exact ⟨fun hg => by simp [hg], Or.inl ⟨hpe, hsp⟩⟩
+          · simp only [hpe, if_false] at h
+            cases hpu : parseUint16 u.port with
+            | none => simp [hpu] at h
+            | some n =>
+              simp only [hpu, R.ok.injEq] at h
+              have hn := parseUint16_some hpu
+              have hmod : n % 65536 = n := Nat.mod_eq_of_lt (by omega)
+              rw [hmod] at h
+              refine ⟨_, n, h.symm, hn, parseUint16_fmtNat hn, ?_, ?_⟩
+              · intro hg; simp [hg]
+              · exact ⟨fun hg => by simp [hg], Or.inr ⟨hpe, hpu⟩⟩
+      · simp [h1, h2] at h
+    · simp [h1] at h
+  | none =>
+    simp only at h
+    cases hv : valid a with
+    | false =>
+      obtain ⟨_, _, hh, hp, _⟩ := c20_accessors_invalid a hv
+      simp [hh, hp, parseUint16] at h
+    | true =>
+      obtain ⟨t, na, ho, po, hparse⟩ := c20_valid_has_parse a hv
+      obtain ⟨_, _, hh, hp, _, _, hshp⟩ := c20_accessors a t na ho po hv hparse
+      simp only [hh, hp] at h
+      cases hpu : parseUint16 po with
+      | none => simp [hpu] at h
+      | some m =>
+        simp only [hpu] at h
+        by_cases hbig : m + 1 ≥ 65536
+        · simp [hbig] at h
+        · simp only [hbig, if_false, R.ok.injEq] at h
+          have hmod : (m + 1) % 65536 = m + 1 := Nat.mod_eq_of_lt (by omega)
+          rw [hmod] at h
+          have hle : m + 1 ≤ 65535 := by omega
+          have hnosq : NoSq (if global = true then [48, 46, 48, 46, 48, 46, 48] else ho) := by
+            by_cases hg : global = true
+            · simp only [hg, if_true]
+              intro c hc
+              simp at hc
+              omega
+            · simp only [hg]
+              exact (hostPort_noSq (shp_iff.mp hshp)).1
+          refine ⟨_, m + 1, h.symm, hle, parseUint16_fmtNat hle, ?_, rfl, ?_, po, m, hp, hpu, rfl, ?_⟩
+          · intro hg; simp [hg]
+          · rw [← h]
+            exact shp_joinHostPort hnosq (noBr_of_digits (fmtNat_digits _))
+          · intro hg; simp [hg, hh]
+
+/-- the websocket derivation never panics -/
+theorem c20_ws_total (a : Str) (url : Option UrlParts) (global : Bool) :
+    wsHostPort a url global ≠ .panic := by
+  obtain ⟨_, _, hh, hp, _⟩ := c20_total a
+  unfold wsHostPort
+  cases url with
+  | some u =>
+    simp only
+    split
+    · simp
+    · split
+      · simp
+      · split
+        · simp
+        · split
+          · simp
+          · split <;> simp
+  | none =>
+    cases hhost : host a with
+    | none => simp [hhost] at hh
+    | some ho =>
+      cases hport : port a with
+      | none => simp [hport] at hp
+      | some po =>
+        simp only
+        split
+        · simp
+        · split <;> simp
+
+/-- the full statement for the code *before* the repair (`port = uint16(portRaw + 1)` with no
+range test) -/
+def C20_ws_full_old : Prop :=
+  ∀ (a : Str) (global : Bool) (r : Str), wsHostPortOld a global = .ok r →
+    ∃ hn p m, port a = some p ∧ parseUint16 p = some m ∧ m + 1 ≤ 65535 ∧ r = joinHostPort hn (fmtNat (m + 1))
+
+/-- `"tcp://10.0.0.1:65535"` -/
+def witness65535 : Str :=
+  [116, 99, 112, 58, 47, 47, 49, 48, 46, 48, 46, 48, 46, 49, 58, 54, 53, 53, 51, 53]
+
+/-- on the unrepaired code the address `tcp://10.0.0.1:65535` gave `10.0.0.1:0` and no error -/
+theorem c20_ws_old_wraps :
+    wsHostPortOld witness65535 false = .ok [49, 48, 46, 48, 46, 48, 46, 49, 58, 48] := by decide
+
+/-- **negation witness**: before the repair the full statement was false (port 65535 wrapped to 0) -/
+theorem c20_ws_full_old_fails : ¬ C20_ws_full_old := by
+  intro hall
+  obtain ⟨hn, p, m, hp, hm, hle, _⟩ := hall witness65535 false _ c20_ws_old_wraps
+  have hp' : port witness65535 = some [54, 53, 53, 51, 53] := by decide
+  rw [hp'] at hp
+  simp only [Option.some.injEq] at hp
+  subst hp
+  have : parseUint16 [54, 53, 53, 51, 53] = some 65535 := by decide
+  rw [this] at hm
+  simp only [Option.some.injEq] at hm
+  omega
+
+/-- the repaired code answers the same address with an error -/
+theorem c20_ws_65535_is_error : wsHostPort witness65535 none false = .err := by decide
+
+/-! ### non-vacuity -/
+
+/-- `tls://[::1]:7770` is valid: bracketed IPv6 host -/
+example : valid [116, 108, 115, 58, 47, 47, 91, 58, 58, 49, 93, 58, 55, 55, 55, 48] = true := by decide
+
+/-- `tcp://a.b.:+80` is valid: host name with trailing dot, signed port -/
+example : valid [116, 99, 112, 58, 47, 47, 97, 46, 98, 46, 58, 43, 56, 48] = true := by decide
+
+/-- `tcp://10.0.0.1:65534` derives the websocket address `10.0.0.1:65535` -/
+example : wsHostPort [116, 99, 112, 58, 47, 47, 49, 48, 46, 48, 46, 48, 46, 49, 58, 54, 53, 53, 51, 52] none false
+    = .ok [49, 48, 46, 48, 46, 48, 46, 49, 58, 54, 53, 53, 51, 53] := by decide
+
+/-- `tcp://1.2.3.4:80` with listen override `h` listens on `h:80`; with `[` it is an error -/
+example : getListenAddress [116, 99, 112, 58, 47, 47, 49, 46, 50, 46, 51, 46, 52, 58, 56, 48] [104]
+    = .ok [104, 58, 56, 48] := by decide
+example : getListenAddress [116, 99, 112, 58, 47, 47, 49, 46, 50, 46, 51, 46, 52, 58, 56, 48] [91]
+    = .err := by decide
+
+/-- `tcp://a:b:1` and `udp://1.2.3.4:80` are invalid -/
+example : valid [116, 99, 112, 58, 47, 47, 97, 58, 98, 58, 49] = false := by decide
+example : valid [117, 100, 112, 58, 47, 47, 49, 46, 50, 46, 51, 46, 52, 58, 56, 48] = false := by decide
 
 end C20
